@@ -28,12 +28,13 @@ theorem C10_success (s : SpecSt) (path : Path) (made : List Path) (r : CallRes) 
       exact ⟨rfl, ⟨b, m, rfl, get_set_self _ _ _ hp⟩, by simp⟩
 
 /-- C10 (failure): if the function raises, returns a non-JSON value (`.error .typeErr` from `ret`) or
-    does not create the file, the exception propagates unchanged (or is `notCreated`), nothing appears
+    does not create the file, the exception propagates unchanged (or is `notCreated`, resp. the OSError of
+    an over-long target name), nothing appears
     at the target, the recorded outputs are unchanged, and the tree is touched only by removing
     directories made for this call. -/
 theorem C10_failure (s : SpecSt) (path : Path) (made : List Path) (r : CallRes) (e : Exc)
     (h : (bfFinish s path made r).1 = .error e) :
-    (r = .error e ∨ (∃ j, r = .ok j ∧ e = .runtime .notCreated ∧ pendingFind s.pending path = none)) ∧
+    (r = .error e ∨ (∃ j, r = .ok j ∧ e = notCreatedExc path ∧ pendingFind s.pending path = none)) ∧
     (s.fs.isFile path = false → (bfFinish s path made r).2.fs.isFile path = false) ∧
     (bfFinish s path made r).2.outputs = s.outputs ∧
     (∀ q, (bfFinish s path made r).2.fs.get q = s.fs.get q ∨
@@ -73,6 +74,7 @@ theorem C10_setup (s s1 : SpecSt) (path : Path) (made : List Path)
   split at h; · cases h
   split at h; · cases h
   rename_i ds _
+  split at h; · cases h
   split at h; · cases h
   simp only [Except.ok.injEq, Prod.mk.injEq] at h
   obtain ⟨hs, _⟩ := h
